@@ -153,6 +153,21 @@ def check(ctx):
     else:
         ctx.ob("write.once", save, "number of write sites", True, "exactly one write site")
 
+    # the counterpart: what load hands to the parser is exactly what it read
+    load = model.method("Config", "load")
+    loads = model.method("Config", "loads")
+    gl = an.cfg(load)
+    for n in gl.nodes:
+        if n.kind == "call" and loads in an.callees(load, n) and n.ast.args:
+            ok, why = True, "the bytes read from the file are handed to loads unchanged"
+            for kind, payload in value_sources(load, n.ast.args[0], n):
+                good = kind == "expr" and isinstance(payload, ast.Call) and any(e[0] == "FILE_READ" for nn in gl.nodes_for(payload) for e in calls.direct(load, nn)) \
+                    and not payload.args
+                if not good:
+                    ok, why = False, "load passes %s to the parser instead of the bytes it read: a file written by save does not load back" % (
+                        ast.unparse(payload)[:50] if isinstance(payload, ast.AST) else payload)
+            ctx.ob("read.exact", load, n.ast, ok, why, node=n)
+
     # C19.4 filename does not reach dumps
     for n in dumps_nodes:
         call = n.ast
